@@ -556,6 +556,12 @@ def check_rule_graph(g):
             if un_syn:
                 cls = 'recursionerror-cycle-without-leader' + (NO_COMMON if nocommon else '')
                 why = f'rules on a cycle of the left-call graph with no leader: {un_syn}'
+            elif un_true and all(r.is_memo and not r.is_lrec for r in model.rules if r.name in un_true) and any(r.name in un_true for r in model.rules):
+                # every rule on the hidden cycle keeps its results: the guard planted in the memo table before a rule body runs stops
+                # the recursion (that is how such grammars parse although the analysis does not see the cycle)
+                cls = 'recursionerror-hidden-left-recursion-of-memoizable-rules-not-stopped-by-the-guard'
+                why = (f'rules {un_true} reach themselves at the same position through a call to a nullable rule; all of them are memoizable, so the '
+                       'left-recursion guard in the memo table has to end the recursion with a parse failure')
             elif un_true:
                 cls = 'recursionerror-hidden-left-recursion-through-call-to-nullable-rule'
                 why = (f'rules {un_true} reach themselves at the same position through a call to a nullable rule '
